@@ -17,7 +17,7 @@ RULE = ("histories of ~18 steps over 1-3 proxies and 1-5 concurrently open strea
 ASSUMPTIONS = ["the virtual clock starts at 1e9 (a linger stamp of 0 means 'none' in Pyro's code)", "after every client-side disconnect / oneway close the harness waits for the server-side event (10 s watchdog, expiry = inconclusive)",
                "a stream whose deadline has passed may be forgotten at any time until the next explicit housekeeping step, after which it must be gone"]
 REQUIRED_REACH = ["racing_reconnects_followed_to_the_end", "shards_with_daemon_annotations_hook", "relayed_streams_ok", "reconnect_fetches_ok", "cross_thread_closes_ok", "connected_socket_streams_ok", "histories_with_failing_disconnect_hook", "items_ok", "stopiteration_ok", "generator_exception_ok", "forgotten_ok", "reconnect_continues", "linger_expired", "lifetime_expired", "table_checked", "streaming_disabled_ok", "racing_reconnects", "server_ended_connections", "housekeeping_during_fetch", "histories_under_one_correlation_id", "concurrent_streams_checked", "slow_item_streams_checked", "natural_housekeeping_ok"]
-SHARD_TIMEOUT = {"quick": 240, "thorough": 3000}
+SHARD_TIMEOUT = {"quick": 480, "thorough": 3000}
 
 
 class VClock:
